@@ -94,6 +94,10 @@ Fam(f, NS, OT) ==
                        \cup {Bin(c, Leaf(p), Leaf(q)) : c \in Comb2 \cup Comb3 \cup HO, p \in Inf, q \in OT}
                        \cup {Bin(c, Leaf(q), Leaf(p)) : c \in Comb2 \cup Comb3 \cup HO, p \in Inf, q \in OT}
     [] f = "rand"   -> {<<Nd("take", 0, 0, n)>> : n \in NS}      \* only the root: the rest is grown by Build steps (for -simulate)
+    \* history: subscribe a pipeline over two interleaved re-scheduling sources whose on_next raises at the g.ur-th element;
+    \* the caller catches it; then subscribe a healthy pipeline on the same thread ("pair": a = first, b = second pipeline)
+    [] f = "crash"  -> {Bin("pair", Un("take", 5, Bin(c, Leaf("resched"), Leaf("resched"))), Un("take", n, Leaf(r))) :
+                            c \in {"merge", "cl", "wlf", "zip"}, n \in NS, r \in Inf}
     [] f = "chaos"  -> {Leaf("chaos")}
     [] f = "chaos2" -> {Un("map", 0, Leaf("chaos")), Un("take", 2, Leaf("chaos")), Un("map", 0, Un("take", 1, Leaf("chaos")))}
     [] OTHER        -> {}
@@ -101,7 +105,9 @@ ShapesOf(b) == UNION {Fam(f, b.ns, b.oth) : f \in b.fams}
 
 \* a block = one product  shapes(fams, ns, oth) x cfgs x ctxs  explored under one work budget; a plan = a set of blocks,
 \* so that one TLC run covers a whole tier
-BlkD(bud, cfgs, ctxs, fams, ns, oth, dsps) == [bud |-> bud, cfgs |-> cfgs, ctxs |-> ctxs, fams |-> fams, ns |-> ns, oth |-> oth, dsps |-> dsps]
+BlkU(bud, cfgs, ctxs, fams, ns, oth, dsps, urs) ==
+  [bud |-> bud, cfgs |-> cfgs, ctxs |-> ctxs, fams |-> fams, ns |-> ns, oth |-> oth, dsps |-> dsps, urs |-> urs]
+BlkD(bud, cfgs, ctxs, fams, ns, oth, dsps) == BlkU(bud, cfgs, ctxs, fams, ns, oth, dsps, {0})
 Blk(bud, cfgs, ctxs, fams, ns, oth) == BlkD(bud, cfgs, ctxs, fams, ns, oth, {0})
 Plan(p) ==
   CASE p = "quick" ->
@@ -111,7 +117,8 @@ Plan(p) ==
            Blk(6, {"default", "cts", "src_cts", "src_imm"}, {"act"}, {"direct", "comb", "ho", "tu"}, {2}, {"one"}),
            Blk(6, {"default"}, {"top"}, {"inner", "comb2", "ho2", "tu"}, {2}, {"one", "sync"}),
            Blk(6, {"vts"}, {"top"}, {"direct", "comb", "ho", "tu"}, {2}, {"one"}),
-           BlkD(6, {"default", "vts"}, {"act"}, {"bare"}, {1}, {"one"}, {2}) }
+           BlkD(6, {"default", "vts"}, {"act"}, {"bare"}, {1}, {"one"}, {2}),
+           BlkU(12, {"default", "sing"}, {"top"}, {"crash"}, {2}, {"one"}, {0}, {0, 2, 3, 4}) }
     [] p = "thorough" ->
          { Blk(24, {"default", "cts", "imm", "src_cts", "src_imm", "sing", "src_sing", "imm_src_sing"}, {"top", "act"},
                {"direct", "elem", "tu", "share", "repeat"},
@@ -123,8 +130,9 @@ Plan(p) ==
            Blk(12, {"default", "imm"}, {"top", "act"}, {"deep"}, {2}, {"one", "sync"}),
            Blk(16, {"vts"}, {"top", "act"}, {"direct", "elem", "comb", "comb3", "ho", "tu", "share", "repeat", "inner"}, {1, 3},
                {"one", "sync", "empty"}),
-           BlkD(16, {"default", "vts", "cts", "imm"}, {"act", "top"}, {"bare", "direct", "tu"}, {3}, {"one", "sync"}, {1, 3}) }
-    [] OTHER -> { BlkD(Budget, Cfgs, Ctxs, Fams, TakeNs, Oth, Dsps) }
+           BlkD(16, {"default", "vts", "cts", "imm"}, {"act", "top"}, {"bare", "direct", "tu"}, {3}, {"one", "sync"}, {1, 3}),
+           BlkU(20, {"default", "sing", "src_sing", "cts"}, {"top", "act"}, {"crash"}, {1, 3}, {"one"}, {0}, {0, 1, 2, 3, 4, 5}) }
+    [] OTHER -> { BlkU(Budget, Cfgs, Ctxs, Fams, TakeNs, Oth, Dsps, GRaise) }
 
 HasKind(t, k) == \E i \in 1..Len(t) : t[i].k = k
 
@@ -140,7 +148,8 @@ S0 == [stack |-> <<>>, enode |-> <<>>, epar |-> <<>>, erole |-> <<>>, slot |-> <
        pd |-> <<>>, hold |-> <<>>, v1 |-> <<>>, v2 |-> <<>>, v3 |-> <<>>, kids |-> <<>>, pulls |-> <<>>,
        tq |-> [t \in Tramps |-> <<>>], active |-> [t \in Tramps |-> FALSE],
        pulled |-> 0, emitted |-> 0, sinkdone |-> FALSE, exhausted |-> FALSE, late |-> 0,
-       raising |-> FALSE, escaped |-> 0, down |-> <<>>, ucalls |-> 0, subret |-> FALSE, udisp |-> FALSE]
+       raising |-> FALSE, escaped |-> 0, down |-> <<>>, ucalls |-> 0, subret |-> FALSE, udisp |-> FALSE,
+       e2 |-> 0, emitted2 |-> 0, done2 |-> FALSE, stale |-> 0, latepull |-> 0]
 
 \* a new edge: subscribe() about to be called on `node` by edge `par` in `role`, parent slot state h
 Alloc(st, node, par, role, h) ==
@@ -163,6 +172,18 @@ Edges(st) == 1..Len(st.enode)
 KidOf(st, p, role) == LET cs == {c \in Edges(st) : st.epar[c] = p /\ st.erole[c] = role} IN
                       IF cs = {} THEN 0 ELSE CHOOSE c \in cs : \A d \in cs : d <= c
 LastKid(st, p) == IF st.kids[p] = <<>> THEN 0 ELSE st.kids[p][Len(st.kids[p])]
+
+\* the sink edge (1, or e2 for the second pipeline of a "pair") an edge delivers to
+RECURSIVE RootEdge(_, _)
+RootEdge(st, e) == IF st.epar[e] = 0 THEN e ELSE RootEdge(st, st.epar[e])
+\* one pull of a counted never-ending source by edge e: work; stale = on behalf of a pipeline the caller has abandoned
+\* (its subscribe() raised and another subscribe() has begun); latepull = after that pipeline's subscriber was done with it
+Pull(st, e) ==
+  LET r == RootEdge(st, e)
+      ended == IF r = 1 THEN st.sinkdone \/ st.udisp ELSE st.done2 IN
+  [st EXCEPT !.pulled = @ + 1, !.pulls[e] = @ + 1,
+             !.stale = IF r = 1 /\ st.e2 # 0 THEN @ + 1 ELSE @,
+             !.latepull = IF ended THEN @ + 1 ELSE @]
 
 \* which scheduler a producer ends up with: `scheduler or scheduler_ or CurrentThreadScheduler.singleton()`
 SchedOf(k) == CASE cfg = "default" -> "S"
@@ -238,7 +259,7 @@ SubInner(st, p, role) == Push(st, <<F("subkid", p, role)>>)
 
 HNext(st, c, x) ==
   LET p == st.epar[c]  r == st.erole[c] IN
-  IF p = 0 THEN UserCall([st EXCEPT !.emitted = @ + 1], "N")
+  IF p = 0 THEN (IF c = 1 THEN UserCall([st EXCEPT !.emitted = @ + 1], "N") ELSE Pop([st EXCEPT !.emitted2 = @ + 1]))
   ELSE LET k == Kind(st, p)  up == <<F("next", p, 0)>> IN
   CASE k \in {"map", "defer", "concat", "concatinf"} -> Push(st, up)
     [] k = "take" -> IF st.v1[p] > 0
@@ -275,7 +296,7 @@ HNext(st, c, x) ==
 
 HDone(st, c) ==
   LET p == st.epar[c]  r == st.erole[c] IN
-  IF p = 0 THEN UserCall(st, "C")
+  IF p = 0 THEN (IF c = 1 THEN UserCall(st, "C") ELSE Pop([st EXCEPT !.done2 = TRUE]))
   ELSE LET k == Kind(st, p)  fin == <<F("done", p, 0)>> IN
   CASE k \in {"map", "defer", "take"} -> Push(st, fin)
     [] k = "share" -> IF st.v1[p] = 1 THEN Push(st, fin) ELSE Pop(st)
@@ -308,7 +329,7 @@ HDone(st, c) ==
 \* on_error: every modelled operator passes observer.on_error straight through (amb / switch_latest guard it)
 HErr(st, c) ==
   LET p == st.epar[c]  r == st.erole[c] IN
-  IF p = 0 THEN UserCall(st, "E")
+  IF p = 0 THEN (IF c = 1 THEN UserCall(st, "E") ELSE Pop([st EXCEPT !.done2 = TRUE]))
   ELSE LET k == Kind(st, p)  fwd == <<F("err", p, 0)>> IN
   CASE k = "share" -> IF st.v1[p] = 1 THEN Push(st, fwd) ELSE Pop(st)
     [] k = "switchmap" /\ r = 2 -> IF c = KidOf(st, p, 2) THEN Push(st, fwd) ELSE Pop(st)
@@ -380,6 +401,9 @@ Run(st) ==
                       ELSE Push([st EXCEPT !.stopped[e] = TRUE], <<F("herr", e, 0), F("adodisp", e, 1)>>)
     [] f.k = "herr" -> HErr(st, e)
     [] f.k = "reraise" -> Pop([st EXCEPT !.raising = TRUE])
+    [] f.k = "sub2" ->               \* the caller (having caught whatever the first subscribe() raised) subscribes again
+         LET c == Len(st.enode) + 1  s1 == Alloc(st, nd[1].b, 0, 0, "na") IN
+         Push([s1 EXCEPT !.e2 = c], <<F("subscribe", c, 0), F("apiend", 0, 0)>>)
     [] f.k = "subret" -> Pop([st EXCEPT !.subret = TRUE])       \* subscribe() has returned its disposable to the user
     [] f.k = "chaos" ->              \* the non-conforming source's subscribe function: scripted calls, then return or raise
          IF f.x > Len(g.scr) THEN (IF g.fin = "raise" THEN Pop([st EXCEPT !.raising = TRUE]) ELSE Pop(st))
@@ -390,10 +414,10 @@ Run(st) ==
     [] f.k = "loopiter" ->           \* while not disposed: value = next(iterator); observer.on_next(value)
          IF st.pd[e] THEN Pop(st)
          ELSE IF st.pulled = blk.bud THEN Exhaust(st)
-         ELSE Push([st EXCEPT !.pulled = @ + 1, !.pulls[e] = @ + 1], <<F("next", e, 0), f>>)
+         ELSE Push(Pull(st, e), <<F("next", e, 0), f>>)
     [] f.k = "ract" ->               \* observer.on_next(next(it)); sd.disposable = scheduler.schedule(action)
          IF st.pulled = blk.bud THEN Exhaust(st)
-         ELSE Push([st EXCEPT !.pulled = @ + 1, !.pulls[e] = @ + 1], <<F("next", e, 0), F("rsched", e, 0)>>)
+         ELSE Push(Pull(st, e), <<F("next", e, 0), F("rsched", e, 0)>>)
     [] f.k = "rsched" -> Sched(st, SchedOf("resched"), F("ract", e, 0), <<>>)
     [] f.k = "oneact" -> Push(st, <<F("next", e, 0), F("done", e, 0)>>)
     [] f.k = "emptyact" -> Push(st, <<F("done", e, 0)>>)
@@ -406,7 +430,7 @@ Run(st) ==
          IF st.pd[e] THEN Pop(st)
          ELSE IF k = "concat" /\ i > 2 THEN Push(st, <<F("done", e, 0)>>)
          ELSE IF k = "concatinf" /\ st.pulled = blk.bud THEN Exhaust(st)
-         ELSE LET s1 == IF k = "concatinf" THEN [st EXCEPT !.v1[e] = i, !.pulled = @ + 1, !.pulls[e] = @ + 1]
+         ELSE LET s1 == IF k = "concatinf" THEN [Pull(st, e) EXCEPT !.v1[e] = i]
                         ELSE [st EXCEPT !.v1[e] = i] IN
               Push(s1, (IF prev # 0 THEN <<F("holddisp", prev, 0)>> ELSE <<>>)
                        \o <<F("subkid", e, IF k = "concat" THEN i ELSE 1)>>)
@@ -426,13 +450,14 @@ SeqsUpTo(n) == UNION {[1..m -> Calls] : m \in 0..n}
 G0 == [scr |-> <<>>, fin |-> "ret", post |-> <<>>, ur |-> 0, dsp |-> 0]
 GChoices(t) == IF HasKind(t, "chaos")
                THEN [scr : SeqsUpTo(GLen), fin : {"ret", "raise"}, post : SeqsUpTo(GPost), ur : GRaise, dsp : {0}]
-               ELSE {[G0 EXCEPT !.dsp = d] : d \in blk.dsps}
+               ELSE {[G0 EXCEPT !.dsp = d, !.ur = u] : d \in blk.dsps, u \in (IF t[1].k = "pair" THEN blk.urs ELSE {0})}
 
 Init == /\ blk \in Plan(PlanName) /\ nd \in ShapesOf(blk) /\ cfg \in blk.cfgs /\ ctx \in blk.ctxs /\ g \in GChoices(nd)
         /\ fix \in (IF cfg = "cts" THEN BOOLEAN ELSE {FALSE})
         /\ open = IF nd[1].k = "take" /\ nd[1].a = 0 THEN <<[p |-> 1, r |-> 1, d |-> 1]>> ELSE <<>>
-        /\ s = LET a == Alloc(S0, 1, 0, 0, "na")
+        /\ s = LET a == Alloc(S0, IF nd[1].k = "pair" THEN nd[1].a ELSE 1, 0, 0, "na")
                    tail == <<F("apiend", 0, 0)>> \o (IF g.post # <<>> THEN <<F("post", 0, 1)>> ELSE <<>>)
+                           \o (IF nd[1].k = "pair" THEN <<F("sub2", 0, 0)>> ELSE <<>>)     \* the caller subscribes again
                            \o (IF cfg = "vts" THEN <<F("drain", 0, 3)>> ELSE <<>>)        \* scheduler.start()
                    b == IF cfg = "vts" THEN [a EXCEPT !.active["V"] = TRUE] ELSE a IN       \* V never runs work inside schedule()
                IF ctx = "top" THEN [b EXCEPT !.stack = <<F("subscribe", 1, 0), F("subret", 0, 0)>> \o tail]
@@ -492,6 +517,11 @@ InfKinds == {"loop", "resched", "concatinf"}
 ReturnedClean == (Terminal /\ ~s.exhausted) =>
                     /\ \A t \in Tramps : ~s.active[t] /\ s.tq[t] = <<>>
                     /\ (s.sinkdone \/ s.udisp) => \A e \in Edges(s) : Kind(s, e) \in InfKinds => (s.pd[e] \/ s.stopped[e])
+\* "the source stops producing": once a pipeline's subscriber is done with it (terminal delivered, or it disposed) its
+\* counted sources are not advanced again - not even once; and a pipeline whose subscribe() raised leaves no work behind
+\* that a later subscribe() on the same thread would run (Trampoline.run clears its queue when an action raises)
+NoPullAfterEnd == (Terminal /\ ~s.exhausted) => s.latepull = 0
+NoStaleWork == Terminal => s.stale = 0
 \* a disposed auto-detach observer is stopped; a disposed slot never holds a live value
 DisposedIsStopped == \A e \in Edges(s) : s.slot[e] = "disposed" => s.stopped[e]
 
@@ -537,6 +567,7 @@ Out(i) ==
     [] k \in {"one", "sync"} -> {<<1, TRUE>>}
     [] k = "empty" -> {<<0, TRUE>>}
     [] k \in {"map", "defer", "share"} -> Out(n.a)
+    [] k = "pair" -> Out(n.b)                 \* what is asserted is the second, healthy pipeline
     [] k = "take" -> {<<Mn(n.n, o[1]), o[1] >= n.n \/ o[2]>> : o \in Out(n.a)}
     [] k = "concatinf" -> {IF o[1] = 0 THEN <<0, FALSE>> ELSE IF o[2] THEN <<INF, FALSE>> ELSE <<o[1], FALSE>> : o \in Out(n.a)}
     [] k = "merge" -> {<<Sat(o[1] + q[1]), o[2] /\ q[2]>> : o \in Out(n.a), q \in Out(n.b)}
@@ -611,10 +642,11 @@ Returns == <>Terminal
 (* ---- export ---------------------------------------------------------------------------------- *)
 Cause == IF ~s.exhausted THEN "none" ELSE IF s.sinkdone THEN "no_cancel_path" ELSE "starved"
 Export == Terminal =>
-            PrintT(ToJson([scn |-> [nd |-> nd, cfg |-> cfg, ctx |-> ctx, budget |-> blk.bud, dsp |-> g.dsp],
+            PrintT(ToJson([scn |-> [nd |-> nd, cfg |-> cfg, ctx |-> ctx, budget |-> blk.bud, dsp |-> g.dsp, ur |-> g.ur],
                            obs |-> [returned |-> ~s.exhausted, pulled |-> s.pulled, emitted |-> s.emitted,
                                     done |-> s.sinkdone, cause |-> Cause, edges |-> Len(s.enode),
-                                    applicable |-> Applicable, fix |-> fix, udisp |-> s.udisp]]))
+                                    applicable |-> Applicable, fix |-> fix, udisp |-> s.udisp, latepull |-> s.latepull,
+                                    stale |-> s.stale, emitted2 |-> s.emitted2, done2 |-> s.done2, escaped |-> s.escaped]]))
 GExport == Terminal =>
             PrintT(ToJson([scn |-> [nd |-> nd, cfg |-> cfg, ctx |-> ctx, g |-> g],
                            obs |-> [down |-> s.down, escaped |-> s.escaped]]))
